@@ -156,7 +156,8 @@ func xrWorld(cc compCase, conn map[string][]byte, keys []string, prep func(xr *v
 	w.step = func(c client.Client, i int) error {
 		// Generated names must not depend on how many cases ran before.
 		utilrand.Seed(cc.Seed + int64(i))
-		_, err := env.ReconcileWith(c, c, xrName)
+		// Cached client as given (it may lag), uncached client always live.
+		_, err := env.ReconcileWith(c, w.live, xrName)
 		return err
 	}
 	return w, env, env.Sim.Get(env.XRKey(otherXRName))
@@ -275,7 +276,7 @@ func TestVerifC02Composers(t *testing.T) {
 		if cc.Variant == "name-generated" {
 			cc.targetName = cc.discoverGeneratedName()
 		}
-		runCase(rec, cc.build, cc.Place, 3, func() any { return cc }, tfail(t))
+		runCase(rec, cc.build, cc.Place, genVisibility().Draw(t, "reads"), 3, func() any { return cc }, tfail(t))
 	})
 }
 
@@ -318,7 +319,7 @@ func (gc fnGCCase) build(p placement) (*world, expectation) {
 			cd := composed.New()
 			cd.SetAPIVersion("example.org/v1")
 			cd.SetKind("KindA")
-			if err := c.Get(ctx, client.ObjectKey{Name: fmt.Sprintf("cd-%d", i)}, cd); err != nil {
+			if err := w.live.Get(ctx, client.ObjectKey{Name: fmt.Sprintf("cd-%d", i)}, cd); err != nil {
 				continue
 			}
 			name := composite.ResourceName(fmt.Sprintf("r%d", i))
@@ -329,13 +330,13 @@ func (gc fnGCCase) build(p placement) (*world, expectation) {
 		}
 		return composite.NewDeletingComposedResourceGarbageCollector(c).GarbageCollectComposedResources(ctx, owner, observed, desired)
 	}
-	return w, expectation{site: "composer/functions-gc-direct", kind: "gc", place: p, target: tk, surface: true, mustWrite: true, gone: true}
+	return w, expectation{site: "composer/functions-gc-direct", kind: "gc", place: p, target: tk, surface: true, mustWrite: true, gone: true, noReads: true}
 }
 
 func TestVerifC02FunctionGC(t *testing.T) {
 	rec := verifkit.New(t, "C02", "DeletingComposedResourceGarbageCollector driven directly with an observed, undesired resource")
 	rapid.Check(t, func(t *rapid.T) {
 		gc := fnGCCase{N: rapid.IntRange(1, 3).Draw(t, "n"), Gone: rapid.IntRange(0, 2).Draw(t, "gone"), Place: rapid.SampledFrom(placements).Draw(t, "placement")}
-		runCase(rec, gc.build, gc.Place, 2, func() any { return gc }, tfail(t))
+		runCase(rec, gc.build, gc.Place, genVisibility().Draw(t, "reads"), 2, func() any { return gc }, tfail(t))
 	})
 }
